@@ -698,7 +698,7 @@ func TestVerif_C16_Attributes(t *testing.T) {
 			v := u32.Draw(rt, "v")
 			sample = fmt.Sprintf("PRIORITY %d", v)
 			m := c16Msg(rt, PriorityAttr(v))
-			var got PriorityAttr
+			got := PriorityAttr(u32.Draw(rt, "previous"))
 			if err := got.GetFrom(m); err != nil || uint32(got) != v {
 				st.Fail(rt, "C16/attr/priority", "encoded %d decoded %d err %v", v, got, err)
 			}
@@ -731,7 +731,7 @@ func TestVerif_C16_Attributes(t *testing.T) {
 			role := rapid.SampledFrom([]Role{Controlling, Controlled}).Draw(rt, "role")
 			sample = fmt.Sprintf("AttrControl %v %d", role, v)
 			m := c16Msg(rt, AttrControl{Role: role, Tiebreaker: v})
-			var got AttrControl
+			got := AttrControl{Role: rapid.SampledFrom([]Role{Controlling, Controlled}).Draw(rt, "prevRole"), Tiebreaker: u64.Draw(rt, "prevTB")}
 			if err := got.GetFrom(m); err != nil || got.Role != role || got.Tiebreaker != v {
 				st.Fail(rt, "C16/attr/control", "encoded %v/%d decoded %v/%d err %v", role, v, got.Role, got.Tiebreaker, err)
 			}
@@ -765,7 +765,7 @@ func TestVerif_C16_Attributes(t *testing.T) {
 			} else {
 				m = c16Msg(rt, Nomination(v))
 			}
-			var got NominationAttribute
+			got := NominationAttribute{Value: u32.Draw(rt, "previous")}
 			err := got.GetFromWithType(m, at)
 			want := v & 0xFFFFFF
 			if err != nil || got.Value != want {
@@ -782,7 +782,7 @@ func TestVerif_C16_Attributes(t *testing.T) {
 			b := rapid.SliceOfN(rapid.Byte(), 0, 1500).Draw(rt, "b")
 			sample = fmt.Sprintf("DTLS-in-STUN len=%d", len(b))
 			m := c16Msg(rt, DtlsInStunAttribute(b))
-			var got DtlsInStunAttribute
+			got := DtlsInStunAttribute(rapid.SliceOfN(rapid.Byte(), 0, 40).Draw(rt, "previousContent"))
 			if err := got.GetFrom(m); err != nil || !bytes.Equal(got, b) {
 				st.Fail(rt, "C16/attr/dtls", "len %d decoded len %d err %v", len(b), len(got), err)
 			}
@@ -803,7 +803,11 @@ func TestVerif_C16_Attributes(t *testing.T) {
 				st.Fail(rt, "C16/attr/ack-addto", "AddTo(%v): %v", vals, err)
 			}
 			d := c16Msg(rt, DtlsInStunAckAttribute(vals))
-			var got DtlsInStunAckAttribute
+			// the receiver may have been used before (longer, shorter or empty previous content)
+			got := DtlsInStunAckAttribute(rapid.SliceOfN(u32, 0, 4).Draw(rt, "previousContent"))
+			if len(got) == 0 && rapid.Bool().Draw(rt, "nilReceiver") {
+				got = nil
+			}
 			if err := got.GetFrom(d); err != nil || len(got) != len(vals) {
 				st.Fail(rt, "C16/attr/ack", "%v decoded %v err %v", vals, got, err)
 			}
